@@ -330,6 +330,27 @@ def counter(repo, chk):
                     chk.bad('C15.4f', 'R6', f.site(c), ast.unparse(c)[:100], 'the bounded counter is fed a whole batch at once: batch_add tests the bound once per batch, so more than bound distinct values are tracked (and the count depends on the batch split); it must be fed item by item with add()')
     if nb == 0:
         chk.ok('C15.4f', 'R6', 'outrank', 'no batch_add call on the per-column bounded counters', 'the bounded counters are fed item by item')
+    # the counters the pipeline creates carry the CONFIGURED bound: a construction that passes no bound silently takes the class default
+    from .common import param_deps
+    n_ctor = 0
+    for mod in repo.modules.values():
+        if mod.name.endswith('counting_counters_ordinary'):
+            continue
+        for f in mod.funcs.values():
+            for c in calls(f):
+                d = mod.dotted(c.func) or ''
+                if d.split('.')[-1] != cls or not d.startswith('outrank.'):
+                    continue
+                n_ctor += 1
+                bound_arg = c.args[0] if c.args else next((k.value for k in c.keywords if k.arg == 'bound'), None)
+                cfg = [q for q in f.params if 'constraint' in q or 'bound' in q or q == 'args']
+                if bound_arg is None and cfg:
+                    chk.bad('C15.4g', 'R6', f.site(c), ast.unparse(c)[:100], f'{f.name} receives the configured bound (`{cfg[0]}`) but builds the counter without it: the class default applies, so the counter tracks more (or fewer) '
+                            'distinct values than the configured bound')
+                elif bound_arg is not None and cfg and not (param_deps(f, bound_arg) & set(cfg)) and not isinstance(bound_arg, ast.Constant):
+                    chk.unsure('C15.4g', 'R6', f.site(c), ast.unparse(c)[:100], 'the bound handed to the counter is not visibly the configured one')
+    if n_ctor and not any(o.oid == 'C15.4g' for o in chk.obs):
+        chk.ok('C15.4g', 'R6', 'outrank', f'{n_ctor} construction(s) of {cls} in the pipeline', 'every counter the pipeline creates is given the configured bound')
     allowed = {f'{cls}.__init__', f'{cls}.add', f'{cls}.batch_add'}
     chk.expect(writers <= allowed and f'{cls}.add' in writers, 'C15.4d', 'R2', m.relpath, f'writers of default_counter: {sorted(writers)}', 'counter written only by __init__, add, batch_add',
                f'default_counter is written by {sorted(writers - allowed)} outside the allowed writers')
